@@ -78,11 +78,13 @@ if notes:
 out.append('''
 **(b) Own mutants** (`/verif/mutants/*.patch`, `tools/make_mutants.py`): 39 single-site edits in the style
 of the design's list (wrong constant, flipped comparison, dropped bookkeeping update, swapped
-arguments, ...). The existing test-suite kills 28 of them; the 11 survivors, three hand-made ones and four patches that
+arguments, ...). The existing test-suite kills 28 of them; the 11 survivors, four hand-made ones and four patches that
 revert the `fix:` commits are run against the check of the property they target. The third hand-made one
 (`unary_tower_truncated`, round 6: `UnaryOp::apply` applies only the 16 innermost operators of a
 composition, the inline capacity of a node; both existing suites pass) is caught by the new tower
-sub-checks of C01 and C03 and by none of the 1.5 M / 0.9 M cases of their older sub-checks.
+sub-checks of C01 and C03 and by none of the 1.5 M / 0.9 M cases of their older sub-checks. The fourth
+(`unary_append_capped`: merged compositions keep at most 16 operators; also survives both suites) is
+likewise caught only by the tower sub-checks (C01, C03, C10, C12 were run against it).
 ''')
 out.append('| mutant | property | file | caught | first failing sub-check: signature |\n|---|---|---|---|---|')
 for name,info in sorted(midx.items()):
